@@ -37,7 +37,7 @@ KINDS = ["Sphere", "SphereLayered", "LayeredSphere", "Spheres", "Scatterers", "S
          "Mie", "Multisphere", "Tmatrix", "MieLens", "AberratedMieLens", "Lens",
          "NmpfitStrategy", "LeastSquaresScipyStrategy", "CmaStrategy", "EmceeStrategy", "TemperedStrategy",
          "AlphaModel", "ExactModel", "ModelTied", "ModelChannels", "LimitOverlaps", "UncertainValue", "SphereWithPriors",
-         "SharedScalar", "SharedContainer", "SharedObject", "RigidClusterDefaults"]
+         "SharedScalar", "SharedContainer", "SharedObject", "RigidClusterDefaults", "ModelTiedTheory"]
 
 
 def cases(tier, seed):
@@ -53,7 +53,8 @@ def cases(tier, seed):
     # explicit None for every constructor argument whose default is something else, class by class with parent
     # classes first, all in ONE interpreter (state kept on classes must not leak from a parent to its subclasses)
     for rep in range(2 if tier == "quick" else 6):
-        out.append({"id": "noneprobe-%d" % rep, "kind": "none_probe", "order": ["parents_first", "children_first", "shuffled"][rep % 3], "seed": [seed, "np", rep]})
+        out.append({"id": "noneprobe-%d" % rep, "kind": "none_probe", "order": ["parents_first", "children_first", "shuffled"][rep % 3], "seed": [seed, "np", rep],
+                    "proc": "noneprobe-%d" % rep})      # a fresh interpreter each: nothing serialized before the probe sequence starts
     return out
 
 
@@ -243,6 +244,21 @@ def _make(what, rng, fl):
     if what == "SphereWithPriors":
         p = _prior(rng, "U")
         return Sphere(n=[_prior(rng), ComplexPrior(_prior(rng, "U"), 0.01), 1.5][int(rng.integers(0, 3))], r=p, center=[p * 2, _prior(rng, "G"), 3.0])
+    if what == "ModelTiedTheory":
+        # ties that involve the THEORY's fitted parameters: add_tie on two of them, or one prior object used by the theory
+        # and elsewhere in the model (scaling / optics)
+        s1 = Sphere(n=_prior(rng, "U"), r=_prior(rng, "U"), center=[1.0, 2.0, _prior(rng, "U")])
+        kind = int(rng.integers(0, 3))
+        if kind == 0:
+            th = AberratedMieLens(spherical_aberration=[Uniform(-2.0, 2.0), Uniform(-2.0, 2.0)], lens_angle=_prior(rng, "U"))
+            m = AlphaModel(s1, alpha=_prior(rng, "U"), noise_sd=0.1, medium_index=1.33, illum_wavelen=0.66, illum_polarization=(1, 0), theory=th)
+            sa = [nm for nm in m.parameters if nm.startswith("spherical_aberration")]
+            m.add_tie(sa, new_name=[None, "sa"][int(rng.integers(0, 2))])
+            return m
+        shared = Uniform(0.5, 1.0)
+        if kind == 1:
+            return AlphaModel(s1, alpha=shared, noise_sd=0.1, medium_index=1.33, illum_wavelen=0.66, illum_polarization=(1, 0), theory=MieLens(lens_angle=shared))
+        return ExactModel(s1, noise_sd=shared, medium_index=1.33, illum_wavelen=0.66, illum_polarization=(1, 0), theory=MieLens(lens_angle=shared))
     if what in ("AlphaModel", "ExactModel", "ModelTied", "ModelChannels"):
         p = _prior(rng, "U", named=[None, "shared"][int(rng.integers(0, 2))])
         s1 = Sphere(n=_prior(rng, "U"), r=p, center=[_prior(rng, "G"), 2.0, _prior(rng, "U")])
